@@ -221,8 +221,12 @@ def run_case(case, ctx):
         k = 1 if case["cell"].endswith("minimal") else int(rng.integers(1, 5))
         built = planted.build(rng, pat, case["cell"], atol, n_copies=k, crossings=[int(x) for x in rng.integers(0, 4, k)],
                               poses=[planted.POSES[int(x)] for x in rng.integers(0, len(planted.POSES), k)], n_bystanders=int(rng.integers(1, 7)),
-                              n_distractors=0 if kind != "self" else int(rng.integers(0, 2)), min_sep=1.3)
+                              n_distractors=0 if kind != "self" else int(rng.integers(0, 2)), min_sep=1.3,
+                              decoys=["mirror"] if (pat.get("chiral") and case["s"] % 2 == 0) else [])
         S = built["atoms"]
+        if built["decoy_groups"]:
+            # a mirror-image site of a handed pattern: fits every distance, is not an occurrence, and sits somewhere among the real ones
+            st.count("structures_with_a_mirror_image_site")
         w = {"kind": kind, "cell_class": case["cell"], "pattern_class": pat["cls"], "atol": atol, "planted": built["planted"], "n_atoms": len(S)}
         if kind == "self":
             # pre-existing terms among the atoms, inside / outside / across the matched groups
@@ -275,6 +279,8 @@ def requirements(stats, tier):
     need = []
     if stats.get("self_replacements") < (100 if tier == "quick" else 12000) or stats.get("restorations_checked") < (100 if tier == "quick" else 12000):
         need.append("self replacements %d, restorations %d" % (stats.get("self_replacements"), stats.get("restorations_checked")))
+    if stats.get("structures_with_a_mirror_image_site") < (10 if tier == "quick" else 1000):
+        need.append("structures with a mirror-image site of a handed pattern: %d" % stats.get("structures_with_a_mirror_image_site"))
     if stats.get("partial_two_step_histories") < (20 if tier == "quick" else 2000):
         need.append("two-step histories with a replacement fraction below 1: %d" % stats.get("partial_two_step_histories"))
     if stats.get("self_replacements_with_separately_built_identical_pattern") < 10 or stats.get("self_replacements_with_pattern_cut_from_structure") < 10:
